@@ -34,10 +34,12 @@ PartVector(enz, up, down) ==
 
 NoTyping == [ok |-> FALSE, illegal |-> FALSE, up |-> << >>, down |-> << >>, tgt |-> << >>, ph |-> << >>,
              s |-> 0, e |-> 0]
-\* what is_valid / overhang_start / overhang_end / target_sequence / placeholder_sequence mean
-Typing(toks, enz, role, w) ==
+\* what is_valid / overhang_start / overhang_end / target_sequence / placeholder_sequence mean.
+\* circ = the record's topology is circular (the search may run through the origin); a record declared
+\* linear is searched as a line (growth beyond the listed properties: the kits only hold plasmids).
+TypingT(toks, enz, role, w, circ) ==
   LET n == Len(w)
-      r == Search(toks, w, 0, n, TRUE)
+      r == Search(toks, w, 0, n, circ)
   IN IF n = 0 \/ ~r.ok THEN NoTyping
      ELSE IF LinCuts(CycSlice(w, r.s, r.e), enz) > 2 THEN [NoTyping EXCEPT !.illegal = TRUE]
      ELSE LET sp == Spans(toks, r.m)
@@ -49,6 +51,7 @@ Typing(toks, enz, role, w) ==
                    tgt |-> CycSlice(w, sp[2][2], sp[1][1] + n),          \* everything but the placeholder
                    ph  |-> CycSlice(w, sp[1][1], sp[2][2]),              \* the discarded stretch
                    s |-> r.s, e |-> r.e]
+Typing(toks, enz, role, w) == TypingT(toks, enz, role, w, TRUE)
 
 UniqueStart(toks, w) == Cardinality(Starts(toks, w, TRUE)) = 1
 
